@@ -219,7 +219,7 @@ def run(ctx):
     sub = Ctx("C16", ctx.tier, ctx.root, model=ctx.model)
     sub._summ = summariser(ctx)
     C16.run(sub)
-    for e in sub.errors:
+    for e in relevant_errors(sub, ("C16.R1", "C16.R2", "C16.R6")):
         ctx.error("shared C16 rules: " + e)
     for o in sub.obligations:
         if o.rule in ("C16.R1", "C16.R2", "C16.R6"):
